@@ -12,6 +12,8 @@ RARE_NAMES = ["d", "x y", "ä", "A"]
 TYPES = ["t1", "t2", "n.s.", "T1/sub"]
 TEXTS = [None, "some text", "Some  Text", "other"]
 
+REPOS = ["file:///nowhere/term_a.xml", "file:///nowhere/term_b.xml"]
+
 GOOD_OID = "5b6a1b40-2bd4-4a12-8f3c-0a1b2c3d4e5f"
 OIDS_BAD = ["5B6A1B40-2BD4-4A12-8F3C-0A1B2C3D4E5F",          # upper case (valid spelling)
             "{5b6a1b40-2bd4-4a12-8f3c-0a1b2c3d4e5f}",        # braced (valid spelling)
@@ -228,6 +230,8 @@ class Gen(object):
                 if not self.fault() else self.pick(["2020-13-45", "yesterday", 5])
         if self.chance(0.2):
             op["version"] = self.pick(["1", "v2", 3])
+        if self.chance(0.2):
+            op["repository"] = self.pick(REPOS)
         oid = self.oid()
         if oid is not None:
             op["oid"] = oid
@@ -269,6 +273,9 @@ class Gen(object):
             op["definition"] = self.pick(TEXTS)
         if self.chance(0.1):
             op["reference"] = self.pick(TEXTS)
+        if self.chance(0.12):
+            # stored through the constructor, as a reader does: nothing is fetched
+            op["repository"] = self.pick(REPOS)
         if self.chance(0.12):
             op["sec_card"] = self.card()
         if self.chance(0.12):
